@@ -21,6 +21,19 @@ def _scale(batches):
   return m
 
 
+def _spread(batches):
+  """max - min of the finite values: the natural scale of a (stable) variance."""
+  lo, hi = None, None
+  for b in batches:
+    for v in os_._flat(b):
+      if isinstance(v, (int, float)) and not (isinstance(v, float) and math.isnan(v)):
+        lo = v if lo is None else min(lo, v)
+        hi = v if hi is None else max(hi, v)
+  if lo is None:
+    return 1.0
+  return max(hi - lo, 1e-6 * max(abs(hi), abs(lo), 1.0))
+
+
 def _vec_close(got, want, scale):
   """got: scalar/array from the library; want: scalar or list from the oracle."""
   import numpy as np
@@ -59,6 +72,7 @@ def check_meanvar(ctx, case):
   sub, batches = case['sub'], case['input']['batches']
   cls = {'mean': rs.Mean, 'meanvar': rs.MeanAndVariance, 'var': rs.Var}[sub]
   scale = _scale(batches)
+  spread = _spread(batches)
   mis = cm.Mis()
   has_nan = any(isinstance(v, float) and math.isnan(v)
                 for b in batches for v in os_._flat(b))
@@ -81,7 +95,9 @@ def check_meanvar(ctx, case):
   def compare(got_fields, want, path, mech=None):
     for k, g in got_fields.items():
       ctx.count('stats_value_checks')
-      sc = scale * scale if k == 'var' else scale
+      sc = (spread * spread + 1e-4 * scale * spread) if k == 'var' else scale
+      if k == 'stddev':
+        sc = spread + 1e-4 * scale
       if k == 'total':
         sc = scale * max(1, len(_rows(batches)))
       w = want[k]
@@ -116,7 +132,9 @@ def check_meanvar(ctx, case):
       for name in ('mean', 'var', 'stddev', 'count', 'total'):
         ctx.count('stats_function_api_checks')
         g = getattr(mrs, name)(first)
-        sc = scale * scale if name == 'var' else scale
+        sc = (spread * spread + 1e-4 * scale * spread) if name == 'var' else scale
+        if name == 'stddev':
+          sc = spread + 1e-4 * scale
         if name == 'total':
           sc = scale * len(first)
         if not _vec_close(g, fn_want[name], sc):
